@@ -48,6 +48,20 @@ def degree_post(sp, e):
     return post
 
 
+def syn_post(sp, e):
+    """a degree is only ever reported for trees of the syntactic class that LP extraction is specified on (C05 carrier)"""
+    def post(res):
+        if res is None:
+            return z3.BoolVal(True)
+        if isinstance(res, SOpt):
+            return z3.Implies(z3.And(z3.Not(res.isnone), res.val.t <= 1), sp.syn(e))
+        d = res.t if isinstance(res, SInt) else z3.IntVal(int(res)) if isinstance(res, int) else sym.to_real(res.t) if isinstance(res, SReal) else None
+        if d is None:
+            return z3.BoolVal(False)
+        return z3.Implies(d <= 1, sp.syn(e))
+    return post
+
+
 def setup_node(c, sp, case):
     """Root expression for a degree case `Kind[:op][|vectorkind...]`."""
     if case is None:
@@ -90,6 +104,7 @@ def install(reg, src):
             c.requires(wf_div(sp, e), name="no division by the literal constant 0")
             c.returns(T.opt(T.int_()))
             c.ensures("poly", degree_post(sp, e))
+            c.ensures("lp-class", syn_post(sp, e))
             if c.verifying and case:
                 install_loops(c, sp, e, case)
         return _
@@ -104,10 +119,12 @@ def install(reg, src):
             v = FV(sp, sp.ref(e))
             allp, mx = vec_deg(sp, v)
             sp.ispoly(e)
+            sp.syn(e)
+            SYNALL = sym.fn("SYNALL", sym.Ref, sym.I, sym.B)
             def inv(st):
                 md = st.var("max_deg")
                 mdt = md.t if isinstance(md, SInt) else z3.IntVal(md)
-                return [mdt >= 0, allp(st.i), mx(st.i) <= mdt]
+                return [mdt >= 0, allp(st.i), mx(st.i) <= mdt, z3.Implies(mdt <= 1, SYNALL(v, st.i))]
             # loop ordinals in _compute_degree_impl: 1 = LinearCombination, 2 = VectorSum
             c.loop(1 if kind == "LinearCombination" else 2, inv, havoc={"d": T.opt(T.int_())})
 
@@ -132,6 +149,7 @@ def install(reg, src):
         c.requires(wf_div(sp, e), name="no division by the literal constant 0")
         c.returns(T.opt(T.int_()))
         c.ensures("poly", degree_post(sp, e))
+        c.ensures("lp-class", syn_post(sp, e))
         memo = c.choose("memo", ["unset", "set"])
         if c.verifying:
             reg.degree_memo_setup(c, sp, e, memo)
@@ -143,7 +161,8 @@ def install(reg, src):
         has = z3.Select(p.store_of("_degree!has", sym.B), r)
         non = z3.Select(p.store_of("_degree!none", sym.B), r)
         val = z3.Select(p.store_of("_degree", sym.I), r)
-        return z3.Implies(z3.And(has, z3.Not(non)), z3.Or(val == -1, z3.And(val >= 0, sp.ispoly(e), sp.sdeg(e) <= val)))
+        return z3.Implies(z3.And(has, z3.Not(non)), z3.Or(val == -1, z3.And(val >= 0, sp.ispoly(e), sp.sdeg(e) <= val,
+                                                                             z3.Implies(val <= 1, sp.syn(e)))))
 
     def degree_memo_setup(c, sp, e, memo):
         p = sp.ip.path
@@ -170,13 +189,16 @@ def install(reg, src):
             from pyvc.values import SBool
             def post(res):
                 t = res.t if isinstance(res, SBool) else z3.BoolVal(bool(res))
-                return z3.Implies(t, z3.And(sp.ispoly(e), sp.sdeg(e) <= bound))
+                return z3.Implies(t, z3.And(sp.ispoly(e), sp.sdeg(e) <= bound, sp.syn(e) if bound <= 1 else z3.BoolVal(True)))
             c.ensures("poly", post)
     lin_contract(f"{M}:is_linear", 1)
     lin_contract(f"{M}:is_quadratic", 2)
     lin_contract("optyx.core.expressions:Expression.is_linear", 1, argname="self")
     reg.wf_div = wf_div
+    install_lp(reg, src)
+    install_lp2(reg, src)
     install_replay(reg, src)
+    install_lp_replay(reg, src)
 
 
 def install_replay(reg, src):
@@ -227,3 +249,359 @@ def install_replay(reg, src):
         if k.startswith(M + ":") and "degree" in k:
             reg.concretizers[k] = deg_conc
             reg.native_searches[k] = deg_search
+
+
+# ======================================================================================= C05: LP coefficient extraction
+def install_lp(reg, src):
+    from .compiler_c import fresh_var_indices, index_term, NV, INDOM, DOMOF, make_index_map
+    from pyvc.values import SArr, SMap, SSeq, Unsupported, real_term
+    DOT = sym.fn("DOT", sym.RealArr, sym.I, sym.RealArr, sym.R)        # sum_{j<n} a[j] * x[j]
+    ZENV = z3.K(sym.Name, sym.rv(0))
+    NOT_LPX = ("ElementwisePower", "ElementwiseUnary", "L2Norm", "L1Norm", "VectorUnarySum", "MatrixSum", "FrobeniusNorm",
+               "VectorExpressionSum", "DotProduct", "QuadraticForm", "VectorPowerSum", "Parameter", "VectorSum|VectorExpression")
+    lin_cases = [c for c in degree_cases(src) if not c.startswith(NOT_LPX)
+                 and not (c.startswith("UnaryOp:") and c != "UnaryOp:neg")]
+
+    def point(ip, IDX):
+        """The arbitrary point x (array in index-map order) and the environment it denotes; one per path."""
+        g = ip.path.ghost
+        key = f"lp_point:{IDX}"
+        if key not in g:
+            sp = Spec(ip)
+            X = sym.fresh("X", sym.RealArr)
+            g[key] = SArr(X, n=NV(IDX), envlink=(IDX, sp.E, ip.path))
+        return g[key]
+
+    def dot_update_lemmas(ip, arr, n, X, Xobj=None):
+        """DOT(store(a,i,v), n, x) = DOT(a, n, x) + (v - a[i]) * x[i]  for 0 <= i < n     (lean: dot_update / Finset.sum_update_of_mem)"""
+        seen = 0
+        cur = arr
+        while z3.is_app(cur) and cur.decl().kind() == z3.Z3_OP_STORE and seen < 12:
+            a, i, v = cur.arg(0), cur.arg(1), cur.arg(2)
+            key = f"dotupd:{cur.get_id()}:{X}"
+            if key not in ip.path.unfolded:
+                ip.path.unfolded.add(key)
+                if Xobj is not None:
+                    ip.models.env_fact(Xobj, i)
+                ip.path.assume(z3.Implies(z3.And(i >= 0, i < n),
+                                          DOT(cur, n, X) == DOT(a, n, X) + (v - z3.Select(a, i)) * z3.Select(X, i)))
+            cur = a
+            seen += 1
+        if z3.is_app(cur) and cur.decl().kind() == z3.Z3_OP_CONST_ARRAY:
+            key = f"dotconst:{cur.get_id()}:{X}:{n}"
+            if key not in ip.path.unfolded and z3.is_rational_value(cur.arg(0)) and cur.arg(0).as_fraction() == 0:
+                ip.path.unfolded.add(key)
+                ip.path.assume(DOT(cur, n, X) == 0)                         # lean: dot_zero
+
+    def const_lemma(sp, ref, E):
+        """degree 0 => constant evaluation (lean: deg0_const)."""
+        p = sp.ip.path
+        key = f"deg0const:{ref}:{E}"
+        if key in p.unfolded:
+            return
+        p.unfolded.add(key)
+        S = sp.S
+        p.assume(z3.Implies(z3.And(S.ISPOLY(ref), S.SDEG(ref) == 0), S.DEN(ref, E, sp.PV) == S.DEN(ref, ZENV, sp.PV)))
+
+    def linear(sp, e):
+        return z3.And(sp.ispoly(e), sp.sdeg(e) <= 1, sp.syn(e))
+
+    def child_lemmas(c, sp, e):
+        r = sp.ref(e)
+        kind = sp.ip.path.kinds.get(str(r))
+        if kind == "BinaryOp":
+            for f in ("left", "right"):
+                const_lemma(sp, sp.S.F(f, sym.Ref)(r), sp.E)
+        elif kind == "UnaryOp":
+            const_lemma(sp, sp.S.F("operand", sym.Ref)(r), sp.E)
+
+    # ---- _extract_constant_impl:  res = value of the formula at the zero point
+    @reg.contract(f"{M}:_extract_constant_impl", props=["C05", "C07", "C08"], cases={"node": lin_cases}, group="lpconst", rank=1)
+    def _(c):
+        sp = Spec(c.ip)
+        case = c.choose("node", lin_cases)
+        e = setup_node(c, sp, case)
+        c.decreases(e)
+        c.requires(sp.nodiv0(e), name="no division by the literal constant 0")
+        c.requires(linear(sp, e), name="linear expression")
+        c.returns(T.real("float"))
+        c.ensures("constant", lambda res: real_term(res) == sp.den(e, ZENV, sp.PV))
+
+    # ---- _extract_all_coefficients_impl: accumulates multiplier * (linear part of e) into result
+    @reg.contract(f"{M}:_extract_all_coefficients_impl", props=["C05", "C08"], cases={"node": lin_cases}, group="lpcoef", rank=1)
+    def _(c):
+        sp = Spec(c.ip)
+        case = c.choose("node", lin_cases)
+        e = setup_node(c, sp, case)
+        vi = c.arg("var_index", T.custom(lambda ip, hint: fresh_var_indices(ip)))
+        IDX = index_term(vi)
+        n = NV(IDX)
+        res = c.arg("result", T.custom(lambda ip, hint: SArr(sym.fresh("result", sym.RealArr), n=n)))
+        m = c.arg("multiplier", T.real("float"))
+        if not isinstance(res, SArr):
+            raise Unsupported("_extract_all_coefficients_impl: result is not a tracked array")
+        X = point(c.ip, IDX)
+        c.decreases(e)
+        c.requires(sp.nodiv0(e), name="no division by the literal constant 0")
+        c.requires(linear(sp, e), name="linear expression")
+        c.requires(reg.covers(sp, e, IDX), name="every variable of the expression is in the index map")
+        if not c.verifying:
+            c.requires(c.ip.models.len_term(res.n) == n, name="result has one entry per variable")
+        old = res.arr
+        mt = real_term(m)
+        if c.verifying:
+            child_lemmas(c, sp, e)
+            install_lp_loops(c, sp, e, case, res, old, mt, X, n)
+        else:
+            res.arr = sym.fresh("result_after", sym.RealArr)        # modifies: result (nothing else)
+        c.returns(T.none())
+
+        def post(_ret):
+            dot_update_lemmas(c.ip, res.arr, n, X.arr, X)
+            dot_update_lemmas(c.ip, old, n, X.arr, X)
+            return DOT(res.arr, n, X.arr) == DOT(old, n, X.arr) + mt * (sp.den(e, sp.E, sp.PV) - sp.den(e, ZENV, sp.PV))
+        c.ensures("dot", post)
+
+    def install_lp_loops(c, sp, e, case, res, old, mt, X, n):
+        from .seqtheory import VLEN, ELEMV, ELEME, FNAME, DENV, register_vector, named_array, psum
+        from .vecspec import FV, COEF
+        kind = case.split("|")[0]
+        r = sp.ref(e)
+        if kind in ("VectorSum", "LinearCombination"):
+            v = FV(sp, r)
+            register_vector(sp, v, None, sp.E, sp.PV)
+            register_vector(sp, v, None, ZENV, sp.PV)
+            sp.den(e, sp.E, sp.PV); sp.den(e, ZENV, sp.PV)
+            arrE = sym.fn("A_vsum" if kind == "VectorSum" else "A_lc", sym.Ref, sym.EnvSort, sym.PVSort, sym.RealArr)(r, sp.E, sp.PV)
+            arrZ = sym.fn("A_vsum" if kind == "VectorSum" else "A_lc", sym.Ref, sym.EnvSort, sym.PVSort, sym.RealArr)(r, ZENV, sp.PV)
+            def inv(st):
+                dot_update_lemmas(c.ip, res.arr, n, X.arr, X)
+                return DOT(res.arr, n, X.arr) == DOT(old, n, X.arr) + mt * (sp.S.PSUM(arrE, st.i) - sp.S.PSUM(arrZ, st.i))
+            hv = {"__mutated__": lambda ip, fr: setattr(res, "arr", sym.fresh("result_loop", sym.RealArr)),
+                  "idx": T.opt(T.int_()), "coeff": T.real("float")}
+            # loops of _extract_all_coefficients_impl in source order: 1 VectorSum, 2 LC/VectorVariable, 3 LC/VectorExpression
+            if kind == "VectorSum":
+                c.loop(1, inv, havoc=hv)
+            elif case.endswith("VectorVariable"):
+                c.loop(2, inv, havoc=hv)
+            else:
+                c.loop(3, inv, havoc=hv)
+    reg.lp = dict(DOT=DOT, ZENV=ZENV, point=point, linear=linear, dot_update_lemmas=dot_update_lemmas, lin_cases=lin_cases)
+
+
+def install_lp2(reg, src):
+    """extract_all_linear_coefficients (+ fast paths), _try_extract_fast_binop, extract_constant_term."""
+    from .compiler_c import fresh_var_indices, index_term, NV, INDOM, DOMOF
+    from pyvc.values import SArr, SMap, SSeq, Unsupported, real_term, SInt
+    from .seqtheory import VLEN, ELEMV, FNAME, register_vector, seqs, _once, skolem, add_index
+    from .vecspec import FV
+    L = reg.lp
+    DOT, ZENV, point, linear, dot_update_lemmas, lin_cases = (L["DOT"], L["ZENV"], L["point"], L["linear"],
+                                                              L["dot_update_lemmas"], L["lin_cases"])
+    INJ = sym.fn("IDXINJ", reg.IDXS, sym.B)      # index map is injective on its key set
+
+    def idx_facts_for_vector(sp, v, IDX):
+        """range and injectivity instances of the index map at the names of the vector's variables."""
+        ip = sp.ip
+        p = ip.path
+        n = VLEN(v)
+
+        def pw(k):
+            if _once(ip, f"idxvec:{v}:{IDX}:{k}"):
+                nm = FNAME(ELEMV(v, k))
+                t = z3.Select(IDX, nm)
+                p.assume(z3.Implies(INDOM(IDX, nm), z3.And(t >= 0, t < NV(IDX))))
+                for k2 in list(seqs(ip).idx):
+                    if not k2.eq(k) and _once(ip, f"idxinj:{v}:{IDX}:{min(str(k), str(k2))}:{max(str(k), str(k2))}"):
+                        nm2 = FNAME(ELEMV(v, k2))
+                        p.assume(z3.Implies(z3.And(INJ(IDX), INDOM(IDX, nm), INDOM(IDX, nm2), t == z3.Select(IDX, nm2)), nm == nm2))
+        if _once(ip, f"idxvecreg:{v}:{IDX}"):
+            seqs(ip).pointwise.append(pw)
+
+    def perm_lemma(sp, B, A, n, pi, Xobj=None):
+        """sum_{k<n} A[pi k] = sum_{j<n} A[j] for pi injective [0,n)->[0,n); B[k] = A[pi k]     (lean: psum_perm / Equiv.sum_comp)"""
+        ip = sp.ip
+        if not _once(ip, f"perm:{B}:{A}:{n}"):
+            return
+        s1, s2, s3 = skolem(ip, "sk_permr", n), skolem(ip, "sk_perm1", n), skolem(ip, "sk_perm2", n)
+        S = sp.S
+        if Xobj is not None:
+            for s_ in (s1, s2, s3):
+                ip.models.env_fact(Xobj, pi(s_))
+        ip.path.assume(z3.Or(S.PSUM(B, n) == S.PSUM(A, n),
+                             z3.And(s1 >= 0, s1 < n, z3.Not(z3.And(pi(s1) >= 0, pi(s1) < n))),
+                             z3.And(s2 >= 0, s2 < n, s3 >= 0, s3 < n, s2 != s3, pi(s2) == pi(s3)),
+                             z3.And(s1 >= 0, s1 < n, z3.Select(B, s1) != z3.Select(A, pi(s1)))))
+
+    def ones_lemma(ip, arr, n, X):
+        if z3.is_app(arr) and arr.decl().kind() == z3.Z3_OP_CONST_ARRAY and _once(ip, f"dotones:{arr}:{n}:{X}"):
+            c0 = arr.arg(0)
+            ip.path.assume(DOT(arr, n, X) == c0 * ip.schema.PSUM(X, n))        # lean: dot_const
+
+    def copy_lemma(ip, arr, n, X, src_arr):
+        """DOT(a, n, x) as a finite sum of products (definition)."""
+        pass
+
+    def setup(c, sp, case):
+        e = setup_node(c, sp, case)
+        vi = c.arg("var_index", T.custom(lambda ip, hint: fresh_var_indices(ip)))
+        IDX = index_term(vi)
+        nn = c.arg("n", T.custom(lambda ip, hint: SInt(NV(IDX))))
+        X = point(c.ip, IDX)
+        c.requires(sp.nodiv0(e), name="no division by the literal constant 0")
+        c.requires(reg.covers(sp, e, IDX), name="every variable of the expression is in the index map")
+        c.requires(INJ(IDX), name="index map injective")
+        if not c.verifying:
+            from pyvc.values import num_term
+            c.requires(num_term(nn) == NV(IDX), name="n is the number of variables")
+        return e, vi, IDX, X
+
+    all_cases = lin_cases
+
+    def coef_post(c, sp, e, IDX, X):
+        n = NV(IDX)
+        def post(res):
+            res = c.ip.models.narrow(c.ip, res)
+            if not isinstance(res, (SArr, SSeq)):
+                return z3.BoolVal(False)
+            ip = c.ip
+            if isinstance(res, SSeq):
+                # a copied coefficient array: DOT over it is the sum of products (definition instance)
+                arr = sym.fresh("copied", sym.RealArr)
+                from .seqtheory import define_array
+                prod = sym.fresh("prodterms", sym.RealArr)
+                define_array(ip, arr, n, lambda k: real_term(res.get(k)), "code")
+                define_array(ip, prod, n, lambda k: z3.Select(arr, k) * z3.Select(X.arr, k), "code")
+                ip.path.assume(DOT(arr, n, X.arr) == ip.schema.PSUM(prod, n))        # lean: dot_def
+                ln = ip.models.len_term(res.n)
+                tot = DOT(arr, n, X.arr)
+            else:
+                arr = res.arr
+                dot_update_lemmas(ip, arr, n, X.arr, X)
+                ones_lemma(ip, arr, n, X.arr)
+                ln = ip.models.len_term(res.n)
+                tot = DOT(arr, n, X.arr)
+            r = sp.ref(e)
+            kind = ip.path.kinds.get(str(r))
+            if kind in ("VectorSum", "LinearCombination") or kind == "BinaryOp":
+                vs = []
+                if kind == "BinaryOp":
+                    for f in ("left", "right"):
+                        ch = sp.S.F(f, sym.Ref)(r)
+                        if ip.path.kinds.get(str(ch)) in ("VectorSum", "LinearCombination"):
+                            vs.append((ch, FV(sp, ch)))
+                else:
+                    vs.append((r, FV(sp, r)))
+                for node, v in vs:
+                    idx_facts_for_vector(sp, v, IDX)
+                    nk = ip.path.kinds.get(str(node))
+                    sp.S.DEN(node, sp.E, sp.PV)
+                    from .specfns import unfold
+                    unfold(sp, "den", node, (sp.E, sp.PV))
+                    unfold(sp, "den", node, (ZENV, sp.PV))
+                    if nk == "VectorSum":
+                        B = sym.fn("A_vsum", sym.Ref, sym.EnvSort, sym.PVSort, sym.RealArr)(node, sp.E, sp.PV)
+                        perm_lemma(sp, B, X.arr, n, lambda k, v=v: z3.Select(IDX, FNAME(ELEMV(v, k))), X)
+                        from .seqtheory import define_array
+                        define_array(ip, X.arr, n, lambda k: z3.Select(X.arr, k), "code")
+            return [ln == n, tot == sp.den(e, sp.E, sp.PV) - sp.den(e, ZENV, sp.PV)]
+        return post
+
+    @reg.contract(f"{M}:extract_all_linear_coefficients", props=["C05", "C08"], cases={"node": all_cases})
+    def _(c):
+        sp = Spec(c.ip)
+        case = c.choose("node", all_cases)
+        e, vi, IDX, X = setup(c, sp, case)
+        c.raises("NonLinearError", when=None, name="raises NonLinearError (only when is_linear answered False)")
+        c.returns(T.custom(lambda ip, hint: SArr(sym.fresh("coeffs", sym.RealArr), n=NV(IDX))))
+        c.ensures("coefficients", coef_post(c, sp, e, IDX, X))
+
+    bin_cases = [f"BinaryOp:{op}" for op in BINARY_OPS]
+
+    @reg.contract(f"{M}:_try_extract_fast_binop", props=["C05", "C08"], cases={"node": bin_cases, "left": ["VectorSum", "LinearCombination", "other"],
+                                                                         "right": ["Constant", "VectorSum", "other"]},
+                  vacuous_ok=True)
+    def _(c):
+        sp = Spec(c.ip)
+        case = c.choose("node", bin_cases)
+        e, vi, IDX, X = setup(c, sp, case)
+        c.requires(linear(sp, e), name="linear expression")
+        if c.verifying:
+            r = sp.ref(e)
+            for f, want in (("left", c.case["left"]), ("right", c.case["right"])):
+                ch = sp.S.F(f, sym.Ref)(r)
+                if want != "other":
+                    c.assume(sp.K.is_kind(ch, want))
+                    sp.S.learn_kind(c.ip, ch, want)
+                    if want in ("VectorSum",):
+                        vv = FV(sp, ch)
+                        c.assume(sp.K.is_kind(vv, "VectorVariable"))
+                        sp.S.learn_kind(c.ip, vv, "VectorVariable")
+                else:
+                    c.assume(z3.Not(sp.K.is_any(ch, ["VectorSum", "LinearCombination", "Constant"])))
+        c.returns(T.opt(T.custom(lambda ip, hint: SArr(sym.fresh("fastcoeffs", sym.RealArr), n=NV(IDX)))))
+        post = coef_post(c, sp, e, IDX, X)
+
+        def post2(res):
+            from pyvc.values import SOpt
+            if res is None:
+                return z3.BoolVal(True)
+            if isinstance(res, SOpt):
+                inner = post(res.val)
+                return [z3.Implies(z3.Not(res.isnone), g) for g in inner]
+            return post(res)
+        c.ensures("coefficients", post2)
+
+    @reg.contract(f"{M}:extract_constant_term", props=["C05", "C07", "C08"], cases={"node": lin_cases})
+    def _(c):
+        sp = Spec(c.ip)
+        case = c.choose("node", lin_cases)
+        e = setup_node(c, sp, case)
+        c.requires(sp.nodiv0(e), name="no division by the literal constant 0")
+        c.raises("NonLinearError", when=None, name="raises NonLinearError (only when is_linear answered False)")
+        c.returns(T.real("float"))
+        c.ensures("constant", lambda res: real_term(res) == sp.den(e, ZENV, sp.PV))
+    reg.lp["INJ"] = INJ
+
+
+def install_lp_replay(reg, src):
+    import random as _random
+    import sys as _sys, os as _os
+    _sys.path.insert(0, _os.path.join(_os.path.dirname(_os.path.dirname(_os.path.abspath(__file__))), "native"))
+    import build as nbuild
+    from pyvc.concretize import Concretizer, find_const
+
+    def conc(eng, ob, model, oid):
+        cz = Concretizer(eng, model)
+        cz.degree_mode = True
+        e = find_const(ob, "expr!")
+        if e is None:
+            return None
+        job = {"family": "lp", "fn": oid.split(" / ")[0], "args": [cz.expr(e)], "clause": oid.split(" / ")[-1], "env": cz.env}
+        idx = find_const(ob, "var_indices!")
+        if idx is not None:
+            job["order"] = cz.column_order(idx, reg.NV)
+        return job
+
+    def search(eng, ob, oid, seed):
+        rng = _random.Random(seed)
+        case = oid.split(" / ")[1]
+        root = None
+        for part in case.split(","):
+            if part.startswith("node="):
+                root = part.split("=", 1)[1].split("|")[0]
+        pool, tries = [], 0
+        while len(pool) < 500 and tries < 40000:
+            tries += 1
+            e = nbuild.rand_linear(rng, 3)
+            r0 = e["cls"] + (":" + e["op"] if e["cls"] in ("BinaryOp", "UnaryOp") else "")
+            if root and r0 != root:
+                continue
+            pool.append({"args": [e]})
+        return {"mode": "search", "family": "lp", "fn": oid.split(" / ")[0], "clause": oid.split(" / ")[-1], "pool": pool,
+                "seed": seed, "points": 2}
+
+    for k in list(reg.contracts):
+        if k.startswith(M + ":") and ("extract" in k):
+            reg.concretizers[k] = conc
+            reg.native_searches[k] = search
